@@ -11,16 +11,16 @@ def table : List Entry := [
   ⟨"AttrDtype", .imm, .alias, .alias⟩,
   ⟨"AttrType", .imm, .alias, .alias⟩,
   ⟨"AttrGraph", .imm, .alias, .alias⟩,
-  ⟨"AttrTensor", .flat, .alias, .copy⟩,
+  ⟨"AttrTensor", .flat, .copy, .copy⟩,
   ⟨"AttrFloat32s", .flat, .freeze, .freeze⟩,
   ⟨"AttrInt64s", .flat, .freeze, .freeze⟩,
   ⟨"AttrStrings", .flat, .freeze, .freeze⟩,
   ⟨"AttrTensors", .nest, .deep, .deep⟩,
   ⟨"_AttrIterable.maybe", .flat, .freeze, .freeze⟩,
   ⟨"BaseVars.variadic", .flat, .freeze, .freeze⟩,
-  ⟨"initializer", .flat, .alias, .copy⟩,
-  ⟨"arguments(default)", .flat, .alias, .copy⟩,
-  ⟨"constant(value)", .flat, .alias, .copy⟩,
+  ⟨"initializer", .flat, .copy, .copy⟩,
+  ⟨"arguments(default)", .flat, .copy, .copy⟩,
+  ⟨"constant(value)", .flat, .copy, .copy⟩,
   ⟨"constant(value_ints)", .flat, .freeze, .freeze⟩,
   ⟨"const(ndarray)", .flat, .deep, .copy⟩,
   ⟨"const(nested list)", .nest, .deep, .deep⟩,
